@@ -344,3 +344,10 @@ func Unreachable(msg string) { panic(assertFailed{msg}) }
 // parks on a condition variable (between releasing and re-acquiring the lock).
 func OnYield(f func()) {}
 func Yield()           {}
+
+// Override makes the engine call f instead of the function with the given
+// fully qualified name (as printed by go/ssa, e.g.
+// "(*github.com/x/y.T).Method") for the rest of the path; nil removes it.
+// Used to summarise a concrete type's method (recorded as a cut in evidence).
+// Natively it does nothing, so harnesses that use it are engine-only.
+func Override(name string, f any) {}
